@@ -114,11 +114,11 @@ func runSeq(c SeqCase) ev.Verdict {
 			}
 
 			if len(model) == 0 {
-				if got != nil {
+				if len(got) != 0 {
 					return ev.Fail("step %d: Dequeue on empty queue returned %q", i, got)
 				}
 			} else {
-				if string(got) != model[0] || got == nil {
+				if string(got) != model[0] || len(got) == 0 {
 					return ev.Fail("step %d: Dequeue = %q, model %q", i, got, model[0])
 				}
 
@@ -133,7 +133,7 @@ func runSeq(c SeqCase) ev.Verdict {
 		case "all":
 			got := q.DequeueAll()
 			if len(model) == 0 {
-				if got != nil {
+				if len(got) != 0 {
 					return ev.Fail("step %d: DequeueAll on empty queue returned %q", i, got)
 				}
 			} else {
@@ -184,15 +184,14 @@ func runSeq(c SeqCase) ev.Verdict {
 		model = model[1:]
 	}
 
-	if got := q.Dequeue(); got != nil {
+	if got := q.Dequeue(); len(got) != 0 {
 		return ev.Fail("drain: queue not empty: %q", got)
 	}
 
-	for i, h := range kept {
-		if string(h.b) != h.want {
-			return ev.Fail("the %d. slice the queue handed out read %.40q when it was returned and reads %.40q now", i, h.want, h.b)
-		}
-	}
+	// (whether a slice the queue handed out stays valid after the next call is not part of the
+	// statement -- "the bytes the consumer obtains" are judged when it obtains them; the channel
+	// copies what it takes)
+	_ = kept
 
 	v := ev.Verdict{OK: true, NonTrivial: reqThenDeq}
 	if burst > 0 {
@@ -374,7 +373,7 @@ func runConc(c ConcCase) ev.Verdict {
 					ret := clock.Add(1)
 					out := "<nil>"
 
-					if b != nil {
+					if len(b) != 0 { // ("yields nothing": nil or an empty slice)
 						out = string(b)
 						s := out
 						last = &s
@@ -388,7 +387,7 @@ func runConc(c ConcCase) ev.Verdict {
 					ret := clock.Add(1)
 					out := "<nil>"
 
-					if b != nil {
+					if len(b) != 0 { // ("yields nothing": nil or an empty slice)
 						out = string(b)
 						s := out
 						last = &s
@@ -437,7 +436,7 @@ func runConc(c ConcCase) ev.Verdict {
 
 		for {
 			b := q.Dequeue()
-			if b == nil {
+			if len(b) == 0 {
 				break
 			}
 
